@@ -596,4 +596,59 @@ theorem C18_invite_anywhere (pre post : List Child) (hpre : ∀ c ∈ pre, c.isM
 example : inviteCalls [.body, .legacyX, .mucInvite, .subject] = 1 := by decide
 example : inviteCalls [.body, .legacyX, .mucOther] = 0 := by decide
 
+/-! ### configuration: registration with the multiplexer, one Client on several sessions (round F) -/
+
+/-- probe fact: on the real multiplexer `muc.HandleClient(h)` makes `h` the handler of available and
+unavailable presences and of normal messages with a muc#user payload in every stanza namespace,
+whichever callbacks are set at registration time (they are exported fields, assigned whenever the
+application likes) -/
+theorem C18_gen_registration :
+    Generated.C18.registration =
+      some (regConfigs.map fun (ns, i, u) => ((ns, i, u), some (registeredFor i u))) := by decide
+
+/-- … so a callback assigned after the registration gets exactly the invitations one assigned before
+gets: delivery depends on the field when the message is handled, not on the registration -/
+theorem C18_late_callback_same_delivery (atReg : Bool) (cs : List Child) :
+    (registeredFor atReg false).2.2 = true ∧ invitesDelivered true cs = inviteCalls cs ∧
+    invitesDelivered false cs = 0 := by
+  simp [registeredFor, invitesDelivered]
+
+/-- one Client on several sessions: `Client.managed` is keyed by the occupant address alone and the
+model's refusal does not know sessions — a second channel for an address in use is refused wherever
+it lives.  Why it must be so: if a channel of another session were allowed to take the registration
+over (`takeover`), the occupant's unavailable presence would end the membership of the wrong channel
+and the first channel would stay joined forever — the invariant `reg` fails after three steps -/
+theorem C18_takeover_breaks_registration :
+    let s0 := init fun _ => 0
+    ∃ s1 s2, step s0 (.joinStart 0 0) = some s1 ∧ step s1 (.avail 0) = some s2 ∧ s2.joined 0 = true ∧
+      -- the refusal keeps channel 0 registered …
+      (∃ s3, step s2 (.joinStart 1 0) = some s3 ∧ s3.managed 0 = some 0 ∧ s3.lastJoin 1 = some (.err .refused)) ∧
+      -- … whereas the take-over leaves a joined channel that is not registered under its address
+      (let s3 : St := { s2 with managed := upd s2.managed 0 (some 1), req := upd s2.req 1 0, jpc := upd s2.jpc 1 .pending }
+       s3.joined 0 = true ∧ s3.managed (s3.cur 0) ≠ some 0 ∧
+       ∃ s4, step s3 (.unavail 0) = some s4 ∧ s4.joined 0 = true ∧ s4.joined 1 = false) := by
+  simp [step, init, upd]
+
+/-! ### a presence whose muc#user payload stands twice (round F)
+
+The multiplexer runs the handler once per child it is registered for, each time with the whole
+presence: such a presence is two consecutive `avail` / `unavail` steps.  The bookkeeping is the same
+as for one (the second run is an ordinary occupant presence / finds nothing). -/
+
+theorem C18_unavailable_twice {s s1 s2 : St} {a : Nat} (h1 : step s (.unavail a) = some s1)
+    (h2 : step s1 (.unavail a) = some s2) (c x : Nat) :
+    s2.joined c = s1.joined c ∧ s2.managed x = s1.managed x ∧ s2.depart c = s1.depart c ∧
+    s2.jpc c = s1.jpc c ∧ s2.cur c = s1.cur c ∧ s2.memberX c = s1.memberX c := by
+  simp only [step] at h1
+  split at h1 <;> (try split at h1) <;> simp at h1 <;> subst h1 <;> simp only [step] at h2 <;>
+    (split at h2 <;> (try split at h2) <;> simp at h2 <;> subst h2 <;> (try simp only [upd] at *) <;> grind [upd])
+
+theorem C18_available_twice {s s1 s2 : St} {a : Nat} (h1 : step s (.avail a) = some s1)
+    (h2 : step s1 (.avail a) = some s2) (c x : Nat) :
+    s2.joined c = s1.joined c ∧ s2.managed x = s1.managed x ∧ s2.cur c = s1.cur c ∧ s2.jpc c = s1.jpc c ∧
+    s2.lastJoin c = s1.lastJoin c ∧ s2.depart c = s1.depart c ∧ s2.memberX c = s1.memberX c := by
+  simp only [step] at h1
+  split at h1 <;> (try split at h1) <;> simp at h1 <;> subst h1 <;> simp only [step] at h2 <;>
+    (split at h2 <;> (try split at h2) <;> simp at h2 <;> subst h2 <;> (try simp only [upd] at *) <;> grind [upd])
+
 end XmppModel.Props.C18
